@@ -48,7 +48,7 @@ def run(ctx) -> None:
     shapes.cli_option_rule(ctx, "R7", ["--ignore-vcs-tag", "--tag-scope"])
     ctx.rule("R6", "prerequisite: 'greatest' is taken under a total order that follows PEP 440 (C16/R1-R4, R8)")
     from sa.report import run_prerequisite
-    run_prerequisite(ctx, "C16", ("R1", "R2", "R3", "R4", "R7", "R8"), "R6")
+    run_prerequisite(ctx, "C16", ("R1", "R2", "R3", "R4", "R7", "R8", "R9"), "R6")
 
     # ---------------------------------------------------------------- R1 get_tags
     gt = prog.function("vcs.get_tags")
